@@ -98,8 +98,9 @@ def factory(kind, spec):
     quals = {"note": ["n1", "n2"], "k": ["v"]}
     if kind == "location":
         plain = Parent(id="chr", sequence=Sequence(R, Alphabet.NT_EXTENDED_GAPPED, id="chr", type=SequenceType.CHROMOSOME))
-        obj = E.make_loc(spec["blocks"], spec["strand"], plain)
-        ops["other"] = E.make_loc(spec["other"], spec["strand"], plain)
+        lst = spec.get("loc_strand", spec["strand"])
+        obj = E.make_loc(spec["blocks"], lst, plain)
+        ops["other"] = E.make_loc(spec["other"], lst, plain)
         return obj, ops
     if kind == "sequence":
         loc = E.make_loc(spec["blocks"][:1], spec["strand"])
@@ -121,8 +122,9 @@ def factory(kind, spec):
     if kind == "transcript":
         return tx, ops
     tx2 = mk_tx(spec["blocks"][:1], spec["strand"], None, None, parent=par, transcript_id="tx2", sequence_name="chr")
+    gquals = {"note": ["from-gene"], "k": ["v"], "g": ["only-gene"]}
     gene = GeneInterval([tx, tx2], gene_id="g1", gene_symbol="gs", locus_tag="lt", sequence_name="chr",
-                        qualifiers={k: list(v) for k, v in quals.items()}, parent_or_seq_chunk_parent=par)
+                        qualifiers={k: list(v) for k, v in gquals.items()}, parent_or_seq_chunk_parent=par)
     if kind == "gene":
         return gene, ops
     coll = AnnotationCollection(genes=[gene], sequence_name="chr", parent_or_seq_chunk_parent=par,
@@ -269,7 +271,7 @@ def _spec(rnd, mode=None):
 
     G = 30
     R = "".join(rnd.choice("ACGT") for _ in range(G))
-    k = rnd.choice([1, 2, 2, 3])
+    k = rnd.choice([1, 2, 2, 3]) if mode not in ("loc-single", "loc-unstranded") else rnd.choice([1, 1, 2])
     cuts = sorted(rnd.sample(range(4, G - 4), 2 * k))
     blocks = [[cuts[2 * i], cuts[2 * i + 1]] for i in range(k)]
     st = rnd.choice("+-")
@@ -280,7 +282,7 @@ def _spec(rnd, mode=None):
     f0 = rnd.choice([0, 0, 1, 2])
     frames = list(_consistent_frames(cds, st, f0)) if cds else None
     chunk = None
-    r = rnd.random() if mode is None else {"none": 0.9, "enclosing": 0.1, "cutting": 0.4}[mode]
+    r = rnd.random() if mode is None or mode.startswith("loc-") else {"none": 0.9, "enclosing": 0.1, "cutting": 0.4}[mode]
     if r < 0.25:
         chunk = (rnd.randrange(0, blocks[0][0] + 1), rnd.randrange(blocks[-1][1], G + 1))
     elif r < 0.5:
@@ -301,7 +303,8 @@ def _spec(rnd, mode=None):
     vlo, vhi = blocks[0][0], blocks[0][1]
     if chunk:
         vlo = min(max(vlo, chunk[0]), vhi - 1)
-    return {"root": R, "blocks": blocks, "strand": st, "cds": cds, "frames": frames, "chunk": chunk,
+    return {"root": R, "blocks": blocks, "strand": st, "loc_strand": "." if mode == "loc-unstranded" else rnd.choice([st, st, st, "."]), "cds": cds,
+            "frames": frames, "chunk": chunk,
             "other": [[o0, o0 + rnd.randrange(1, 6)]], "vpos": rnd.randrange(vlo, vhi)}
 
 
@@ -313,7 +316,8 @@ def _replay(args):
     rnd = random.Random(seed)
     acts = actions(kind)
     ev = []
-    modes = [None] if kind in ("location", "sequence") else ["none", "enclosing", "cutting", "cutting", "cutting"]
+    modes = ["loc-any", "loc-single", "loc-unstranded"] if kind == "location" else [None] if kind == "sequence" else \
+        ["none", "enclosing", "cutting", "cutting", "cutting"]
     for h, mode in [(h, m) for h in hists for m in modes]:
         sp = _spec(rnd, mode)
         if kind == "cds" and not sp["cds"]:
